@@ -326,6 +326,8 @@ func runC03(c *Ctx) {
 	c.rule("R03.6", "accept arm: every path registers the request or answers it; the connection-unusable path answers with the temporary error and neither registers nor writes")
 	c.rule("R03.7", "a loss arm returns from the loop when no reconnect is possible")
 	c.rule("R03.8", "every per-request mailbox is a freshly made channel with constant capacity >= 1")
+	c.rule("R03.15", "every socket write is bounded by a write deadline set before it: the connection loop writes requests itself, so a write parked on a silent peer blocks every call and the loss handling for ever")
+	c.boundedSocketWrites("R03.15")
 	if !c.need("R03.2", "FN_loop", r.FnLoop != nil) {
 		return
 	}
